@@ -460,7 +460,7 @@ func c11GenChain(c *fw.Case, w *c11World, prefix string, nids int) *c11Node {
 }
 
 func runC11(c *fw.Case) {
-	if desyncBin() != "" && c.Chance(1, procRate(400), "c11.proc") {
+	if desyncBin() != "" && c.ChanceAdded(1, procRate(400), "c11.proc") {
 		runC11Proc(c)
 		return
 	}
